@@ -563,7 +563,7 @@ fn c03_impact_exact_cross_over_e2_u8() {
     w8::price_impact_exact_cross_over(2, 2);
 }
 
-//@ prop=C03 tier=thorough kind=hold
+//@ prop=C03 tier=experimental kind=hold
 //@ enc=PoolDelta::{try_new,price_impact}, PriceImpactParams::adjusted_factors, utils::apply_factors, Fixed::{checked_pow,checked_mul}
 //@ bound=width-reduced T=u16, DECIMALS=2 (UNIT 100): every u16 USD-value pool, every i16 USD delta pair, every u16 factor pair, exponent 1*UNIT; sign clause only
 //@ stubs=pool = plain VPool; by-design exclusion: improved AND cross-over
@@ -584,11 +584,11 @@ fn c03_improved_cross_over_sign_u8() {
     w8::improved_cross_over_sign(1, 2);
 }
 
-//@ prop=C03 tier=quick kind=hold
+//@ prop=C03 tier=thorough kind=hold
 //@ enc=PoolDelta::{try_new,price_impact,is_same_side_rebalance}, PriceImpactParams::adjusted_factors, utils::apply_factors
 //@ bound=width-reduced T=u8, DECIMALS=1: every u8 USD-value pool and i8 USD delta pair (not i8::MIN) that stay on one side of the balance point, every factor pair, exponent 1*UNIT; the change and its exact reverse on the resulting pool, both legs must succeed; slack: 1 unit
 //@ stubs=pool = plain VPool; by-design slack of one unit (independent floors), see c03_round_trip_strict_same_side_u8
-//@ timeout=1800
+//@ timeout=5400 mem=30
 #[kani::proof]
 #[kani::unwind(4)]
 fn c03_round_trip_same_side_e1_u8() {
@@ -660,7 +660,7 @@ fn c03_position_virtual_impact_only_lowers_u8() {
     w8::position_virtual_impact(1, 1, false, false);
 }
 
-//@ prop=C03 tier=thorough kind=hold
+//@ prop=C03 tier=experimental kind=hold
 //@ enc=PoolDelta::{try_new,price_impact}, PriceImpactParams::adjusted_factors, utils::apply_factors, Fixed::{checked_pow,checked_mul}
 //@ bound=width-reduced T=u8, DECIMALS=1: every u8 USD-value pool, i8 delta pair, factor pair, exponent 3*UNIT (unwind 5); exact reference
 //@ stubs=pool = plain VPool
@@ -675,7 +675,7 @@ fn c03_price_impact_exact_ref_exp3_u8() {
     }
 }
 
-//@ prop=C03 tier=thorough kind=hold
+//@ prop=C03 tier=experimental kind=hold
 //@ enc=PoolDelta::{try_new,price_impact}, PriceImpactParams::adjusted_factors, utils::apply_factors, Fixed::{checked_pow,checked_mul}
 //@ bound=width-reduced T=u16, DECIMALS=2: every u16 USD-value pool, i16 USD delta pair, every factor pair, exponent in {0,1,2}*UNIT (unwind 4); exact reference
 //@ stubs=pool = plain VPool
@@ -690,7 +690,7 @@ fn c03_price_impact_exact_ref_u16() {
     }
 }
 
-//@ prop=C03 tier=thorough kind=hold
+//@ prop=C03 tier=experimental kind=hold
 //@ enc=PoolDelta::{try_new,price_impact}, PriceImpactParams::adjusted_factors, utils::apply_factors
 //@ bound=width-reduced T=u8, DECIMALS=1: round trip (both cases) with exponent 3*UNIT (unwind 5)
 //@ stubs=pool = plain VPool
@@ -701,7 +701,7 @@ fn c03_round_trip_not_profitable_exp3_u8() {
     w8::round_trip(3, 3);
 }
 
-//@ prop=C03 tier=thorough kind=hold
+//@ prop=C03 tier=experimental kind=hold
 //@ enc=PoolDelta::{try_new,price_impact}, PriceImpactParams::adjusted_factors, utils::apply_factors
 //@ bound=width-reduced T=u16, DECIMALS=2: every u16 USD-value pool, i16 USD delta pair, every factor pair, exponent in {1,2}*UNIT (unwind 4)
 //@ stubs=pool = plain VPool
@@ -715,7 +715,7 @@ fn c03_round_trip_not_profitable_u16() {
 
 
 
-//@ prop=C03 tier=thorough kind=hold
+//@ prop=C03 tier=experimental kind=hold
 //@ enc=SwapMarketExt::swap_impact_value, BalanceExt::{pool_delta_with_amounts,pool_delta_with_values}, PoolDelta::price_impact
 //@ bound=width-reduced T=u8, DECIMALS=1: as c03_swap_virtual_impact_only_lowers_u8, additionally the result equals min(real impact, exact reference of the virtual leg)
 //@ stubs=market environment = plain-struct VMarket
@@ -726,7 +726,7 @@ fn c03_swap_virtual_impact_exact_min_u8() {
     w8::swap_virtual_impact(1, 1, 15, true);
 }
 
-//@ prop=C03 tier=thorough kind=hold
+//@ prop=C03 tier=experimental kind=hold
 //@ enc=PositionExt::position_price_impact, BaseMarketExt::open_interest, Pool::checked_cancel_amounts (default method), PoolDelta::price_impact
 //@ bound=width-reduced T=u8, DECIMALS=1: as c03_position_virtual_impact_only_lowers_u8, additionally real leg == exact reference on the open-interest totals and result == min(real, exact reference of the netted/offset virtual leg)
 //@ stubs=market/position environment = plain-struct VMarket/VPosition
